@@ -87,3 +87,7 @@ func VerifC19_GraceOperationsOnDifferentKeysCommute() {
 	verifrt.Assert(b1 == pendB, "C19.grace.otherRolloutsEntryUntouched")
 	verifrt.Cover("done")
 }
+
+// C06: an API error inside the wrapped (idempotent) closure is handed back to the caller with "retry", whatever the
+// grace period — it is never turned into "done" (the same obligation as C07.grace.errorPropagated).
+func VerifC06_GraceWrapperNeverSwallowsErrors() { VerifC07_GraceWrapperAlwaysSchedulesAWakeUp() }
